@@ -44,7 +44,8 @@ RoaStatePool == <<
     [pl |-> P("h4", 24, 1), c |-> ""],  [pl |-> P("h4", 24, 1), c |-> "x"],
     [pl |-> P("h4", 25, 1), c |-> ""],  [pl |-> P("h4", 24, 0), c |-> ""],
     [pl |-> P("h6", 48, 1), c |-> ""],  [pl |-> P("h6", 128, 1), c |-> "x"],
-    [pl |-> P("b4", 16, 1), c |-> ""] >>
+    [pl |-> P("b4", 16, 1), c |-> ""],
+    [pl |-> P("u4", 24, 1), c |-> ""] >>     \* configured while held, lost
 
 (* ASPA pools: customers 1, 2 (held), 3 (not held); providers 11, 12 *)
 D(c, ps) == [cust |-> c, provs |-> ps]
@@ -56,7 +57,8 @@ AspaAddPool == <<
     D(3, <<11>>), D(3, <<>>),   D(3, <<3>>) >>
 AspaRemPool == <<1, 2, 3>>
 AspaStatePool == << [cust |-> 1, provs |-> {11}], [cust |-> 1, provs |-> {11, 12}],
-                    [cust |-> 2, provs |-> {11}], [cust |-> 2, provs |-> {1}] >>
+                    [cust |-> 2, provs |-> {11}], [cust |-> 2, provs |-> {1}],
+                    [cust |-> 3, provs |-> {11}] >>   \* AS 3 lost since
 AspaCustomers == <<1, 2, 3>>
 ProvLists == << <<>>, <<11>>, <<12>>, <<11, 12>>, <<11, 11>>, <<1>>, <<11, 1>>,
                 <<13>> >>
@@ -68,14 +70,16 @@ RtrAddPool == << Rd(1, "k1", TRUE), Rd(1, "k1", FALSE), Rd(1, "k2", TRUE),
                  Rd(2, "k1", TRUE), Rd(2, "k2", FALSE),
                  Rd(3, "k1", TRUE), Rd(3, "k2", FALSE) >>
 RtrRemPool == << K(1, "k1"), K(1, "k2"), K(2, "k1"), K(3, "k1") >>
-RtrStatePool == << K(1, "k1"), K(1, "k2"), K(2, "k1") >>
+RtrStatePool == << K(1, "k1"), K(1, "k2"), K(2, "k1"),
+                   K(3, "k1") >>                       \* AS 3 lost since
 
 (* Children *)
 Handles == <<"ch1", "ch2">>
 ResSeq == <<"none", "sub4", "asn", "mix", "all", "unh4", "part", "big4",
             "unhas", "partas">>
 ChildStatePool == << [h |-> "ch1", res |-> "sub4"], [h |-> "ch1", res |-> "all"],
-                     [h |-> "ch2", res |-> "mix"] >>
+                     [h |-> "ch2", res |-> "mix"],
+                     [h |-> "ch2", res |-> "part"] >>  \* partly lost since
 
 ----------------------------------------------------------------------------
 IdxSeqs(n, k) == UNION { [1..m -> 1..n] : m \in 0..k }
